@@ -32,7 +32,7 @@ pub struct TokenName<'a>(pub Cow<'a, str>);
 
 impl TokenName<'_> {
     const EOF: TokenName<'static> = TokenName(Cow::Borrowed("EOF"));
-    const EPSILON: TokenName<'static> = TokenName(Cow::Borrowed("ɛ"));
+    pub(crate) const EPSILON: TokenName<'static> = TokenName(Cow::Borrowed("ɛ"));
 }
 
 impl std::fmt::Debug for TokenName<'_> {
